@@ -213,24 +213,43 @@ class TheoryOracle(walkers.DagWalker):
 
         def signs(f, sign):
             # The signs of the symbols of a leaf or of a difference
-            # of leaves; None if the term has another shape
+            # of leaves, for each way of choosing the branches of the
+            # if-then-elses on top of them; None if the term has
+            # another shape
             if f.is_symbol():
-                return [sign]
+                return [[sign]]
             if len(f.get_free_variables()) == 0:
-                return []
+                return [[]]
             if f.is_minus() and all(is_leaf(a) for a in f.args()):
-                return signs(f.arg(0), sign) + signs(f.arg(1), -sign)
+                return [signs(f.arg(0), sign)[0] + signs(f.arg(1), -sign)[0]]
+            if f.is_ite():
+                then_, else_ = signs(f.arg(1), sign), signs(f.arg(2), sign)
+                if then_ is None or else_ is None or \
+                   len(then_) + len(else_) > 16:
+                    return None
+                return then_ + else_
             return None
+
+        def mentions_minus(f):
+            while f.is_ite():
+                if mentions_minus(f.arg(1)):
+                    return True
+                f = f.arg(2)
+            return f.is_minus()
 
         if formula.is_minus():
             return all(is_leaf(a) for a in formula.args())
         if (formula.is_le() or formula.is_lt() or formula.is_equals()) and \
-           (formula.arg(0).is_minus() or formula.arg(1).is_minus()):
+           (mentions_minus(formula.arg(0)) or mentions_minus(formula.arg(1))):
             left, right = signs(formula.arg(0), 1), signs(formula.arg(1), -1)
             if left is None or right is None:
                 return True
-            both = left + right
-            return len(both) < 2 or (len(both) == 2 and both[0] != both[1])
+            for l in left:
+                for r in right:
+                    both = l + r
+                    if len(both) > 2 or (len(both) == 2 and both[0] == both[1]):
+                        return False
+            return True
         return True
 
     @walkers.handles(op.QUANTIFIERS)
